@@ -152,8 +152,9 @@ def main():
     if 'inmem' in flags:
         # the in-memory tables as JSON (for C20: python tables imported == in-memory tables)
         def clean(zi):
-            return {'name': zi['name'], 'eras': [{k: (v['name'] if k == 'zonePolicy' and isinstance(v, dict) else v) for k, v in e.items()} for e in zi['eras']]}
+            return {'name': zi['name'], 'eras': [{k: ({'rules': v['rules']} if k == 'zonePolicy' and isinstance(v, dict) else v) for k, v in e.items()} for e in zi['eras']]}
         res['inmem_infos'] = {k: clean(v) for k, v in zone_infos.items()}
+        res['inmem_era_policy_names'] = {v['name']: [(e['zonePolicy']['name'] if isinstance(e['zonePolicy'], dict) else e['zonePolicy']) for e in v['eras']] for v in zone_infos.values()}
         res['inmem_policies'] = {k: v for k, v in zone_policies.items()}
     res['compile_wall'] = time.time() - t0
     if 'pieces' in flags or 'opts' in flags:
